@@ -1192,5 +1192,27 @@ def rule_rolling_buffer_tiles(repo, rep):
             cur = pp
         by_cond[cond] = str(norm(st.value))
     ok = by_cond.get(False) in ("Shape4D(self.storage_shape)",) and by_cond.get(True, "").startswith("self.get_4D_storage_shape_for_shape(") and None not in by_cond
+    # the same for every other use in the class: the storage shape derived from an operator's shape is taken only under is_standard_fm
+    from ..exprnorm import conjuncts as _cjz
+
+    n_use = 0
+    for q2, f2 in tm.functions.items():
+        if not q2.startswith("Tensor.") or q2 == "Tensor.get_4D_storage_shape_for_shape":
+            continue
+        for c_ in ast.walk(f2):
+            if not (isinstance(c_, ast.Call) and str(norm(c_.func)) == "self.get_4D_storage_shape_for_shape"):
+                continue
+            n_use += 1
+            conds = set()
+            cur = c_
+            while cur is not f2 and cur is not None:
+                pp = tm.parents.get(cur)
+                if isinstance(pp, ast.If) and cur in pp.body:
+                    conds |= {str(norm(x)) for x in _cjz(pp.test)}
+                cur = pp
+            rep.check("self.is_standard_fm" in conds, "C02-z", f"ethosu/vela/tensor.py:{q2}", "the operator-derived storage shape is used under `self.is_standard_fm`",
+                      f"conditions {sorted(conds)}: a rolling buffer (feature map purpose, sub-purpose RollingBufferY) is addressed through the operator's shape - offsets beyond the buffer that was allocated")
+    if n_use < 2:
+        raise AnalysisError(f"Tensor: {n_use} uses of get_4D_storage_shape_for_shape")
     rep.check(ok, "C02-z", site, "tile crossings of a rolling buffer use the buffer's own storage shape; only a standard feature map uses the shape derived from the operator's",
               f"definitions {by_cond}: a rolling buffer is addressed with the operator's (larger) shape - no access wraps at the end of the buffer, the rows behind it are read and written")
